@@ -79,8 +79,8 @@ PROPS = {
 }
 
 # Batteries whose ops are independent of each other (only decl-* lines carry state) run in
-# parallel shards; timing- and scheduler-sensitive batteries (C07, C09, C14, C16, C17, C20) do not.
-for _p in ("C01", "C02", "C03", "C04", "C05", "C06", "C08", "C10", "C11", "C12", "C13", "C15", "C18", "C19"):
+# parallel shards; timing-, scheduler- and order-sensitive batteries (C07, C14, C16, C17, C20) do not.
+for _p in ("C01", "C02", "C03", "C04", "C05", "C06", "C08", "C09", "C10", "C11", "C12", "C13", "C15", "C18", "C19"):
     PROPS[_p]["shards"] = 8
 
 # C14 runs its requests in one server process on purpose: a replay carries the preceding requests
